@@ -34,6 +34,8 @@ FACTORY = (
     S((R("b"), False), (R("a"), True)),
     S((spaces.A_PLUS_B, False), (R("c"), True)),
     ("sel", ("gt", spaces.A_PLUS_B, L(2))),
+    ("sel", ("in_seq", spaces.A_PLUS_B, (R("c"), L(3)))),
+    ("pe", ("calc", "z", spaces.A_PLUS_B), "s", True, False, False),
     ("pe", ("proj", ("b",)), "s", True, False, False),
     ("pe", ("proj", ("c",)), "e1", True, False, False),
     ("slice", 1, 3),
